@@ -82,7 +82,29 @@ class CaseTimeout(BaseException):
     pass
 
 
-CASE_TIMEOUT_S = 300
+CASE_TIMEOUT_S = 120
+HARD_KILL_MARGIN_S = 20
+WORKER_MEMORY_LIMIT = 12 * 2**30
+
+
+def heartbeat(case):
+    """record the case that is about to run: the supervising parent process uses the file's age to
+    detect a case that never comes back (a hang inside C code ignores SIGALRM) and its content to
+    name the case when the worker dies (killed by the watchdog, by the OOM killer, by a crash)"""
+    path = os.environ.get("VERIF_HB_FILE")
+    if not path:
+        return
+    tmp = path + ".tmp"
+    with open(tmp, "w") as f:
+        f.write(harness.canonical(case))
+    os.replace(tmp, path)
+
+
+def touch():
+    """a long case tells the supervisor that it is still making progress"""
+    path = os.environ.get("VERIF_HB_FILE")
+    if path and os.path.exists(path):
+        os.utime(path)
 
 
 def call_run_case(prop, case):
@@ -91,6 +113,7 @@ def call_run_case(prop, case):
     import signal
 
     limit = getattr(prop, "CASE_TIMEOUT_S", CASE_TIMEOUT_S)
+    heartbeat(case)
 
     def handler(signum, frame):
         raise CaseTimeout()
@@ -179,8 +202,21 @@ def judge(prop, case, discs, stats, open_known):
         for d in unknown:
             b = bucket_of(d)
             if b not in stats.failures or size < stats.failures[b][0]:
+                if b not in stats.failures:
+                    _log_failure(b, size, case, unknown)
                 stats.failures[b] = (size, case, unknown)
     return unknown
+
+
+def _log_failure(bucket, size, case, discs):
+    """first failure of every root cause goes to a side file at once, so that it survives a
+    worker that is killed later in the same run"""
+    path = os.environ.get("VERIF_FAIL_FILE")
+    if not path:
+        return
+    with open(path, "a") as f:
+        f.write(json.dumps({"bucket": bucket, "size": size, "case": json.loads(harness.canonical(case)),
+                            "discs": json.loads(harness.canonical(discs[:20]))}) + "\n")
 
 
 def process_case(prop, case, stats, open_known):
@@ -205,6 +241,8 @@ def run_fuzz_stage(prop, stage, seed_value, stats, open_known, deadline):
     except subprocess.CalledProcessError:
         stats.labels["fuzz-skipped:atheris-not-importable"] += 1
         return
+    # the campaign is bounded by its own time budget (subprocess timeout below)
+    heartbeat({"__unsupervised__": f"fuzz stage {stage['target']}"})
     out = pathlib.Path(tempfile.mkdtemp(prefix="vffuzz-", dir=harness.scratch_root()))
     corpus = out / "corpus"
     corpus.mkdir()
@@ -241,6 +279,7 @@ def run_machine_stage(prop, stage, seed_value, stats, open_known, deadline, exam
     from hypothesis.stateful import run_state_machine_as_test
 
     def on_history(case, discs, final):
+        heartbeat(case)
         if time.monotonic() > deadline:
             return []
         if final:
@@ -324,6 +363,13 @@ def shrink_bucket(prop, stage, seed_value, bucket, open_known, budget_s, example
     return best
 
 
+def _shrink_worker(pid, tier, stage_index, seed_value, bucket, budget_s, examples):
+    prop = load_prop(pid)
+    stage = [s for s in prop.plan(tier) if s["kind"] == "hyp"][stage_index]
+    best = shrink_bucket(prop, stage, seed_value, bucket, known.open_entries(pid), budget_s, examples)
+    return json.loads(harness.canonical(best)) if best else {}
+
+
 def run_plan(pid, tier, seed_value, shard=(0, 1), budget_s=None):
     """run the whole plan of a property (one shard); returns Stats"""
     prop = load_prop(pid)
@@ -371,32 +417,176 @@ def run_plan(pid, tier, seed_value, shard=(0, 1), budget_s=None):
     return stats
 
 
-def _worker(args):
-    pid, tier, seed_value, shard, budget_s = args
+def _limit_memory():
+    """a runaway allocation in the code under test becomes a MemoryError inside the case (an
+    'exception' discrepancy) instead of an OOM kill of the sandbox"""
+    try:
+        import resource
+
+        soft, hard = resource.getrlimit(resource.RLIMIT_AS)
+        limit = int(os.environ.get("VERIF_MEMORY_LIMIT", WORKER_MEMORY_LIMIT))
+        if hard == resource.RLIM_INFINITY or limit < hard:
+            resource.setrlimit(resource.RLIMIT_AS, (limit, hard))
+    except (ImportError, ValueError, OSError):
+        pass
+
+
+def _child_main(conn, slot, fn, args):
+    scratch = pathlib.Path(harness.scratch_root())
+    os.environ["VERIF_HB_FILE"] = str(scratch / f"hb-{slot}.json")
+    os.environ["VERIF_FAIL_FILE"] = str(scratch / f"fail-{slot}.jsonl")
+    _limit_memory()
+    try:
+        result = ("ok", fn(*args))
+    except BaseException as e:  # noqa: BLE001
+        result = ("error", f"{type(e).__name__}: {e}\n{traceback.format_exc()}")
+    try:
+        conn.send(result)
+    except Exception as e:  # noqa: BLE001 - e.g. an unpicklable payload
+        conn.send(("error", f"result not transferable: {type(e).__name__}: {e}"))
+    conn.close()
+
+
+def supervise(jobs, limit_s, total_s=None):
+    """run `jobs` = [(fn, args)] each in its own forked process and watch them: a process whose
+    current case (heartbeat file) is older than `limit_s`, or that runs longer than `total_s`, is
+    killed.  Returns one entry per job: ("ok", payload) | ("error", text) |
+    ("killed" | "died", {"case": ..., "failures": [...]})."""
+    ctx = multiprocessing.get_context("fork")
+    scratch = pathlib.Path(harness.scratch_root())
+    tag = f"{os.getpid()}-{time.monotonic_ns()}"
+    running = {}
+    for i, (fn, args) in enumerate(jobs):
+        slot = f"{tag}-{i}"
+        for name in (f"hb-{slot}.json", f"fail-{slot}.jsonl"):
+            (scratch / name).unlink(missing_ok=True)
+        recv, send = ctx.Pipe(duplex=False)
+        proc = ctx.Process(target=_child_main, args=(send, slot, fn, args), daemon=False)
+        proc.start()
+        send.close()
+        running[i] = (proc, recv, slot, time.monotonic())
+    results = {}
+
+    def post_mortem(slot):
+        hb = scratch / f"hb-{slot}.json"
+        ff = scratch / f"fail-{slot}.jsonl"
+        case = None
+        if hb.exists():
+            try:
+                case = harness.revive(json.loads(hb.read_text()))
+            except ValueError:
+                case = None
+        failures = []
+        if ff.exists():
+            for line in ff.read_text().splitlines():
+                try:
+                    failures.append(harness.revive(json.loads(line)))
+                except ValueError:
+                    pass
+        return {"case": case, "failures": failures}
+
+    while running:
+        for i in list(running):
+            proc, recv, slot, started = running[i]
+            verdict = None
+            if recv.poll():
+                try:
+                    results[i] = recv.recv()
+                except (EOFError, OSError):
+                    verdict = "died"
+                else:
+                    proc.join(10)
+                    if proc.is_alive():
+                        proc.kill()
+                    del running[i]
+                    continue
+            elif not proc.is_alive():
+                if recv.poll():
+                    continue  # result arrived between the two tests: next round picks it up
+                verdict = "died"
+            else:
+                hb = scratch / f"hb-{slot}.json"
+                now = time.time()
+                try:
+                    age = now - hb.stat().st_mtime
+                except OSError:
+                    age = 0
+                if age > limit_s:
+                    try:
+                        unsupervised = "__unsupervised__" in hb.read_text()[:40]
+                    except OSError:
+                        unsupervised = False
+                    if not unsupervised:
+                        verdict = "killed"
+                if total_s and time.monotonic() - started > total_s:
+                    verdict = "killed"
+            if verdict:
+                if proc.is_alive():
+                    proc.kill()
+                proc.join(10)
+                info = post_mortem(slot)
+                info["exitcode"] = proc.exitcode
+                results[i] = (verdict, info)
+                del running[i]
+        time.sleep(0.1)
+    for i in range(len(jobs)):
+        slot = f"{tag}-{i}"
+        for name in (f"hb-{slot}.json", f"hb-{slot}.json.tmp", f"fail-{slot}.jsonl"):
+            (scratch / name).unlink(missing_ok=True)
+    return [results[i] for i in range(len(jobs))]
+
+
+def _plan_worker(pid, tier, seed_value, shard, budget_s):
     # a private user cache dir per worker (set before ceos_alos2 is first imported)
     home = pathlib.Path(os.environ["XDG_CACHE_HOME"]) / f"worker-{shard[0]}"
     home.mkdir(parents=True, exist_ok=True)
     os.environ["XDG_CACHE_HOME"] = str(home)
-    try:
-        return ("ok", run_plan(pid, tier, seed_value, shard, budget_s))
-    except BaseException as e:  # noqa: BLE001
-        return ("error", f"{type(e).__name__}: {e}\n{traceback.format_exc()}")
+    return run_plan(pid, tier, seed_value, shard, budget_s)
+
+
+def stats_from_post_mortem(prop, verdict, info, limit_s):
+    """a worker that was killed (its case never came back) or died (OOM kill, crash of the
+    interpreter) is a finding about the case it was running, not a harness error: the code under
+    test made a process unusable.  What the worker had already found is recovered from its
+    failure log."""
+    stats = Stats()
+    stats.exhaustive = False
+    stats.labels[f"worker-{verdict}"] += 1
+    for f in info["failures"]:
+        stats.failures[f["bucket"]] = (f["size"], f["case"], f["discs"])
+    case = info["case"]
+    if case is not None:
+        if verdict == "killed":
+            d = harness.disc("did-not-terminate", "case", f"a result within {limit_s} s", "still running (process killed by the watchdog)")
+        else:
+            d = harness.disc("process-died", "case", "a result", f"worker process died (exit code {info.get('exitcode')})")
+        stats.failures.setdefault(bucket_of(d), (len(harness.canonical(case)), case, [d]))
+        stats.evaluations += 1
+    return stats
 
 
 def run_check(pid, tier, seed_value, jobs, budget_s):
     prop = load_prop(pid)
     t0 = time.monotonic()
-    if jobs <= 1:
-        stats = run_plan(pid, tier, seed_value, (0, 1), budget_s)
-    else:
-        ctx = multiprocessing.get_context("fork")
-        with ctx.Pool(jobs) as pool:
-            results = pool.map(_worker, [(pid, tier, seed_value, (i, jobs), budget_s) for i in range(jobs)])
-        stats = Stats()
-        for status, payload in results:
-            if status == "error":
-                raise RuntimeError(f"worker failed: {payload}")
+    jobs = max(1, jobs)
+    limit_s = getattr(prop, "CASE_TIMEOUT_S", CASE_TIMEOUT_S) + HARD_KILL_MARGIN_S
+    results = supervise(
+        [(_plan_worker, (pid, tier, seed_value, (i, jobs), budget_s)) for i in range(jobs)], limit_s,
+        total_s=(budget_s or 10**9) + 4 * limit_s,
+    )
+    stats = Stats()
+    hung = set()
+    for status, payload in results:
+        if status == "error":
+            raise RuntimeError(f"worker failed: {payload}")
+        if status == "ok":
             stats.merge(payload)
+        else:
+            if payload["case"] is None and not payload["failures"]:
+                raise RuntimeError(f"worker {status} before it ran a case (exit code {payload.get('exitcode')})")
+            pm = stats_from_post_mortem(prop, status, payload, limit_s)
+            hung |= {b for b in pm.failures if b.startswith(("did-not-terminate", "process-died"))}
+            stats.merge(pm)
 
     open_known = known.open_entries(pid)
     # shrink (Hypothesis stages) up to three root causes
@@ -407,14 +597,19 @@ def run_check(pid, tier, seed_value, jobs, budget_s):
         shrink_budget = 20 if tier == "quick" else 240
         for n, (bucket, (size, case, discs)) in enumerate(sorted(stats.failures.items())):
             best = {"case": case, "discs": discs}
-            if n < 3 and getattr(prop, "SHRINK", True):
-                for stage in hyp_stages:
+            if n < 3 and getattr(prop, "SHRINK", True) and bucket not in hung:
+                for si, stage in enumerate(hyp_stages):
                     for shard in range(max(1, jobs)):
                         examples = max(1, stage["examples"] // max(1, jobs))
-                        got = shrink_bucket(
-                            prop, stage, seed_value * 1000 + shard, bucket, open_known,
-                            shrink_budget / max(1, len(hyp_stages)), examples,
+                        per_stage = shrink_budget / max(1, len(hyp_stages))
+                        # in a child process: the same seed replays the same cases, including
+                        # one that hangs or kills the process
+                        (status, got), = supervise(
+                            [(_shrink_worker, (pid, tier, si, seed_value * 1000 + shard, bucket, per_stage, examples))],
+                            limit_s, total_s=per_stage + limit_s,
                         )
+                        if status != "ok":
+                            got = {}
                         if got and got["size"] <= len(harness.canonical(best["case"])):
                             best = got
                         if got:
@@ -469,12 +664,26 @@ def merge_stage_info(infos):
     return [{"stage": k[0], "kind": k[1], **v} for k, v in merged.items()]
 
 
+def _replay_worker(pid, case):
+    discs = call_run_case(load_prop(pid), case)
+    return json.loads(harness.canonical(discs))
+
+
 def replay(pid, path):
     prop = load_prop(pid)
     doc = harness.revive(json.loads(pathlib.Path(path).read_text()))
     case = doc["case"] if "case" in doc else doc
     open_known = known.open_entries(pid)
-    discs = call_run_case(prop, case)
+    limit_s = getattr(prop, "CASE_TIMEOUT_S", CASE_TIMEOUT_S) + HARD_KILL_MARGIN_S
+    (status, payload), = supervise([(_replay_worker, (pid, case))], limit_s)
+    if status == "error":
+        raise RuntimeError(payload)
+    if status == "ok":
+        discs = payload
+    elif status == "killed":
+        discs = [harness.disc("did-not-terminate", "case", f"a result within {limit_s} s", "still running (process killed by the watchdog)")]
+    else:
+        discs = [harness.disc("process-died", "case", "a result", f"process died (exit code {payload.get('exitcode')})")]
     unknown = [d for d in discs if not known.match(pid, case, d, open_known)]
     for d in discs:
         tag = "UNKNOWN" if d in unknown else "known"
